@@ -407,9 +407,12 @@ Theorem c09_live_borrow_pool_short_refuted :
   (forall bs cap off batch r, NoDup (map b_id bs) -> In b bs ->
      sweep_one GB2 0 (map (pos_of_borrow GB2) bs) cap (zlen bs) off batch = Ok r -> ~ In (b_id b) (r_seized r)).
 Proof.
-  cbn zeta. repeat split; try (vm_compute; reflexivity).
+  cbn zeta.
+  split; [vm_compute; reflexivity|]. split; [vm_compute; reflexivity|].
+  split; [vm_compute; reflexivity|]. split; [vm_compute; reflexivity|].
   intros bs cap off batch r Hnd Hb H.
-  eapply not_seize_never; eauto; [discriminate|]. vm_compute. discriminate.
+  apply (not_seize_never GB2 bs cap off batch r _ ltac:(discriminate) Hnd Hb); [|exact H].
+  vm_compute. discriminate.
 Qed.
 Print Assumptions c09_live_borrow_pool_short_refuted.
 
